@@ -81,6 +81,9 @@ def evaluate(ctx, b, lib, model_exe, n_pops, per_class):
     # fixes/C03-3): it is generated when the source has the repair (decided from the regenerated switch, i.e. from the
     # source text, not from any symptom); corpus/C03/string-delimiters-as-scalar.json replays it on any tree
     string_delims = ctx.cov.get("model_cfg", {}).get("errorResyncsFromStart") == "1"
+    # likewise the class "a delimiter where an aggregate element must stand" (finding agg:missing-element-read-as-unset of
+    # property C09, repaired by fixes/C01-7): generated when the element loops have the repair
+    missing_elem = ctx.cov.get("model_cfg", {}).get("aggrReportsMissingElement") == "1"
     items = []     # (violation, text, base index)
     bases = []
     pops = [W.gen_population(rng, sch, rng.randint(4, 9)) for _ in range(n_pops)]
@@ -88,7 +91,7 @@ def evaluate(ctx, b, lib, model_exe, n_pops, per_class):
         pops.insert(0, W.ref_population(sch))       # references to complex instances through every part
     for pop in pops:
         bases.append((pop, W.render_file(sch.name, pop)))
-        for v in W.violations(rng, sch, pop, per_class, string_delims=string_delims):
+        for v in W.violations(rng, sch, pop, per_class, string_delims=string_delims, missing_elem=missing_elem):
             items.append((v, W.render_violation(sch.name, v), len(bases) - 1))
     files = []
     for k, (pop, text) in enumerate(bases):
@@ -171,6 +174,7 @@ def run(ctx):
     b = ctx.build("plain")
     quick = ctx.tier == "quick"
     ctx.cov["model_cfg"] = R.model_cfg(model_exe)
+    W.NUMBER_ELEM_INT = ctx.cov["model_cfg"].get("numberElemReadsNumber") == "1"
     libs = R.build_libs(b, ctx.work, schemas_for(ctx, 3 if quick else 24))
     cdir = os.path.join(VERIF, "corpus", "C03")
     for lib in libs:
